@@ -142,11 +142,16 @@ def extract(scope='lib', overlay=None, force=False):
     fcntl.flock(lock, fcntl.LOCK_EX)
     try:
         if os.path.exists(os.path.join(out, 'DONE')) and not force:
+            try:
+                os.utime(out)           # least recently used goes first, and a cache in use by a concurrent check is never the oldest
+            except OSError:
+                pass
             return out, units
-        # evict old caches (keep disk use bounded)
+        # evict old caches (keep disk use bounded); never one that was used in the last hour (a concurrent check may be reading it)
         olds = sorted(glob.glob(os.path.join(CACHE, 'facts-*')), key=os.path.getmtime)
-        for o in olds[:-6] if len(olds) > 6 else []:
-            shutil.rmtree(o, ignore_errors=True)
+        for o in olds[:-8] if len(olds) > 8 else []:
+            if time.time() - os.path.getmtime(o) > 3600:
+                shutil.rmtree(o, ignore_errors=True)
         shutil.rmtree(out, ignore_errors=True)
         os.makedirs(os.path.join(out, 'marks'))
         with open(os.path.join(out, 'compile_commands.json'), 'w') as f:
